@@ -1,11 +1,428 @@
-import ClairModel.Model.Match
+/-
+  C05 — Vulnerability report is the exact, well-formed union of matcher results.
+  Property theorems only; helper lemmas live in Proofs/Match.lean.
+
+  The functional model (Model/Match.lean) follows internal/matcher/controller.go
+  and match.go and indexreport.go `IndexRecords`; matchers, enrichers and the
+  store are arbitrary functions.  It is tied to the real code by the
+  differential run of `./check C05` (go/internal/c05).
+-/
+import ClairModel.Proofs.Match
 
 namespace ClairModel.Props.C05
 open ClairModel ClairModel.Match
 
-/-- placeholder while the harness is brought up -/
+/-! ## The collector: schedule independence -/
+
+/-- The collector's result does not depend on the order in which the
+    (package, vulnerability) pairs reach it — whatever the arrival order of the
+    matcher results and the iteration order of each result map: the
+    vulnerability table is the same function, the key set of
+    `PackageVulnerabilities` is the same, and the list under each package is
+    the same up to order.  Hypothesis: equal ids carry equal vulnerabilities
+    (true of anything read from one store). -/
+theorem collect_perm (e₁ e₂ : List (Nat × Vuln)) (hp : e₁.Perm e₂) (hf : IdFunctional e₁) :
+    (∀ id, find id (collect e₁).vulns = find id (collect e₂).vulns) ∧
+    (∀ pkg, (getL pkg (collect e₁).pkgVulns).Perm (getL pkg (collect e₂).pkgVulns)) ∧
+    (∀ pkg, (find pkg (collect e₁).pkgVulns).isSome = (find pkg (collect e₂).pkgVulns).isSome) := by
+  refine ⟨fun id => ?_, fun pkg => ?_, fun pkg => ?_⟩
+  · rw [collect_vuln, collect_vuln]; exact lastWith_perm hp hf id
+  · rw [collect_pkg, collect_pkg]; exact (hp.filter _).map _
+  · rw [collect_key, collect_key, Bool.eq_iff_iff]
+    simp only [List.any_eq_true]
+    exact ⟨fun ⟨e, he, h⟩ => ⟨e, hp.mem_iff.1 he, h⟩, fun ⟨e, he, h⟩ => ⟨e, hp.mem_iff.2 he, h⟩⟩
+
+/-- Without that hypothesis the table does depend on the schedule: two
+    different objects with one id, the later one wins. -/
+theorem collect_perm_needs_functional_ids_counterexample :
+    let a : Nat × Vuln := (1, ⟨7, 10⟩)
+    let b : Nat × Vuln := (1, ⟨7, 20⟩)
+    [a, b].Perm [b, a] ∧ find 7 (collect [a, b]).vulns ≠ find 7 (collect [b, a]).vulns := by
+  refine ⟨List.Perm.swap _ _ _, ?_⟩
+  decide
+
+/-- Arrival order of the matcher results is irrelevant. -/
+theorem arrival_order_irrelevant (o₁ o₂ : List MOut) (hp : o₁.Perm o₂) (hf : IdFunctional (o₁.flatMap events)) :
+    (∀ id, find id (collectOuts o₁).vulns = find id (collectOuts o₂).vulns) ∧
+    (∀ pkg, (getL pkg (collectOuts o₁).pkgVulns).Perm (getL pkg (collectOuts o₂).pkgVulns)) :=
+  let h := collect_perm _ _ (hp.flatMap_right events) hf
+  ⟨h.1, h.2.1⟩
+
+/-- Iteration order of a result map is irrelevant. -/
+theorem map_order_irrelevant (out out' : MOut) (rest : List MOut) (hp : out.Perm out')
+    (hf : IdFunctional ((out :: rest).flatMap events)) :
+    (∀ id, find id (collectOuts (out :: rest)).vulns = find id (collectOuts (out' :: rest)).vulns) ∧
+    (∀ pkg, (getL pkg (collectOuts (out :: rest)).pkgVulns).Perm (getL pkg (collectOuts (out' :: rest)).pkgVulns)) := by
+  have hp' : ((out :: rest).flatMap events).Perm ((out' :: rest).flatMap events) := by
+    simp only [List.flatMap_cons]
+    exact List.Perm.append_right _ (hp.flatMap_right _)
+  have h := collect_perm _ _ hp' hf
+  exact ⟨h.1, h.2.1⟩
+
+/-! ## The report is well formed -/
+
+/-- Every id listed under a package resolves in the vulnerability table, to a
+    vulnerability with that id — for any sequence the collector may see. -/
+theorem ids_resolve (evs : List (Nat × Vuln)) (pkg id : Nat)
+    (h : id ∈ getL pkg (collect evs).pkgVulns) :
+    ∃ v, find id (collect evs).vulns = some v ∧ v.id = id := by
+  obtain ⟨v, hm, hid⟩ := mem_collect_pkg.1 h
+  rw [collect_vuln]
+  cases hl : lastWith id evs with
+  | none => exact absurd hid (lastWith_none.1 hl (pkg, v) hm)
+  | some v' => exact ⟨v', rfl, (lastWith_some hl).1⟩
+
+/-- The table holds nothing but vulnerabilities that are listed under some package. -/
+theorem table_only_listed (evs : List (Nat × Vuln)) (id : Nat) (v : Vuln)
+    (h : find id (collect evs).vulns = some v) :
+    ∃ pkg, id ∈ getL pkg (collect evs).pkgVulns := by
+  rw [collect_vuln] at h
+  obtain ⟨hid, e, he, rfl⟩ := lastWith_some h
+  exact ⟨e.1, mem_collect_pkg.2 ⟨e.2, he, hid⟩⟩
+
+/-! ## The controller pipeline is exact -/
+
+/-- `Controller.Match` of a matcher that is neither remote nor authoritative
+    returns, under a package, exactly the vulnerabilities the store answered
+    for that package and the matcher's `Vulnerable` accepted for one of the
+    package's records the matcher's `Filter` let through. -/
+theorem controller_exact (c : Bool) (store : Store) (m : Matcher) (recs : List Record) (out : MOut)
+    (hk : m.kind = .plain ∨ m.kind = .versionFilter false)
+    (h : controllerMatch c store m recs = some out) (k : Nat) (x : Vuln) :
+    (k, x) ∈ events out ↔
+      ∃ vulns, store c m.query (dbFilter m).1 (interested m recs) = some vulns ∧
+        ∃ r ∈ recs, m.filter r = true ∧ r.pkg = k ∧ x ∈ getL k vulns ∧ m.vulnerable r x = some true := by
+  unfold controllerMatch at h
+  by_cases he : (interested m recs).isEmpty = true
+  · simp only [he, if_true, Option.some.injEq] at h
+    subst h
+    constructor
+    · intro hx; simp [events] at hx
+    · rintro ⟨_, _, r, hr, hf, _⟩
+      have : r ∈ interested m recs := List.mem_filter.2 ⟨hr, hf⟩
+      rw [List.isEmpty_iff] at he
+      rw [he] at this
+      cases this
+  · simp only [he] at h
+    have key : ∀ (db : Bool) (vulns : MOut), store c m.query db (interested m recs) = some vulns →
+        filterAll m (interested m recs) vulns = some out →
+        ((k, x) ∈ events out ↔
+          ∃ vulns, store c m.query db (interested m recs) = some vulns ∧
+            ∃ r ∈ recs, m.filter r = true ∧ r.pkg = k ∧ x ∈ getL k vulns ∧ m.vulnerable r x = some true) := by
+      intro db vulns hs h'
+      unfold filterAll at h'
+      rw [filterFrom_some h' k x]
+      constructor
+      · rintro (h0 | ⟨r, hr, h1, h2, h3⟩)
+        · simp [events] at h0
+        · have := List.mem_filter.1 hr
+          exact ⟨vulns, hs, r, this.1, this.2, h1, h2, h3⟩
+      · rintro ⟨vulns', hv, r, hr, hf, h1, h2, h3⟩
+        rw [hs] at hv
+        simp only [Option.some.injEq] at hv
+        subst hv
+        exact Or.inr ⟨r, List.mem_filter.2 ⟨hr, hf⟩, h1, h2, h3⟩
+    rcases hk with hk | hk
+    · have hd : (dbFilter m).1 = false := by simp [dbFilter, hk]
+      rw [hd]
+      cases hs : store c m.query false (interested m recs) with
+      | none => simp [hk, dbFilter, hs] at h
+      | some vulns =>
+        rw [← hs]
+        apply key false vulns hs
+        simpa [hk, dbFilter, hs] using h
+    · have hd : (dbFilter m).1 = true := by simp [dbFilter, hk]
+      rw [hd]
+      cases hs : store c m.query true (interested m recs) with
+      | none => simp [hk, dbFilter, hs] at h
+      | some vulns =>
+        rw [← hs]
+        apply key true vulns hs
+        simpa [hk, dbFilter, hs] using h
+
+/-- The keys such a matcher returns are package ids of the records it was given. -/
+theorem controller_keys (c : Bool) (store : Store) (m : Matcher) (recs : List Record) (out : MOut)
+    (hk : m.kind = .plain ∨ m.kind = .versionFilter false)
+    (h : controllerMatch c store m recs = some out) (k : Nat) (x : Vuln) (hx : (k, x) ∈ events out) :
+    ∃ r ∈ recs, r.pkg = k := by
+  obtain ⟨_, _, r, hr, _, hp, _⟩ := (controller_exact c store m recs out hk h k x).1 hx
+  exact ⟨r, hr, hp⟩
+
+/-- When exactly a controller fails: it reaches the store and either the
+    store fails or (for a non-authoritative matcher) some `Vulnerable` call on
+    an interested record and a vulnerability the store returned for it fails.
+    In particular a remote matcher never fails (see
+    `remote_error_swallowed_counterexample`). -/
+theorem controller_fails_iff (c : Bool) (store : Store) (m : Matcher) (recs : List Record) :
+    controllerMatch c store m recs = none ↔
+      reachesGet m recs = true ∧
+        (store c m.query (dbFilter m).1 (interested m recs) = none ∨
+          ((dbFilter m).2 = false ∧ ∃ vulns, store c m.query (dbFilter m).1 (interested m recs) = some vulns ∧
+            ∃ r ∈ interested m recs, ∃ x ∈ getL r.pkg vulns, m.vulnerable r x = none)) := by
+  unfold controllerMatch reachesGet
+  by_cases he : (interested m recs).isEmpty = true
+  · simp [he]
+  · simp only [he, Bool.false_eq_true, if_false, Bool.not_false, Bool.true_and]
+    cases hkind : m.kind with
+    | remote =>
+      simp only []
+      cases m.remote (interested m recs) <;> simp
+    | plain =>
+      simp only [dbFilter, hkind]
+      cases hs : store c m.query false (interested m recs) with
+      | none => simp
+      | some vulns =>
+        simp only [Bool.false_eq_true, if_false, filterAll, filterFrom_none]
+        constructor
+        · intro h; exact ⟨by decide, Or.inr ⟨trivial, vulns, rfl, h⟩⟩
+        · rintro ⟨_, h | ⟨_, v', hv, h⟩⟩
+          · cases h
+          · cases hv; exact h
+    | versionFilter a =>
+      simp only [dbFilter, hkind]
+      cases hs : store c m.query true (interested m recs) with
+      | none => simp
+      | some vulns =>
+        cases a with
+        | true => simp
+        | false =>
+          simp only [Bool.false_eq_true, if_false, filterAll, filterFrom_none]
+          constructor
+          · intro h; exact ⟨by decide, Or.inr ⟨trivial, vulns, rfl, h⟩⟩
+          · rintro ⟨_, h | ⟨_, v', hv, h⟩⟩
+            · cases h
+            · cases hv; exact h
+
+/-! ## EnrichedMatch / Libvuln.Scan -/
+
+/-- Exact union: when `EnrichedMatch` returns a report, an id is listed under
+    a package exactly when some matcher's controller returned a vulnerability
+    with that id under that package. -/
+theorem report_is_union (c : Bool) (store : Store) (ms : List Matcher) (es : List Enricher)
+    (recs : List Record) (r : Report) (em : List (Nat × List Nat))
+    (h : enrichedMatch c store ms es recs = some (r, em)) (pkg id : Nat) :
+    id ∈ getL pkg r.pkgVulns ↔
+      ∃ m ∈ ms, ∃ out, controllerMatch false store m recs = some out ∧
+        ∃ v, (pkg, v) ∈ events out ∧ v.id = id := by
+  obtain ⟨_, _, _, hr, _⟩ := enrichedMatch_some h
+  subst hr
+  unfold collectOuts
+  rw [mem_collect_pkg]
+  constructor
+  · rintro ⟨v, hv, hid⟩
+    obtain ⟨out, ho, hv⟩ := mem_flatMap_events.1 hv
+    obtain ⟨m, hm, hc⟩ := mem_oks.1 ho
+    exact ⟨m, hm, out, hc, v, hv, hid⟩
+  · rintro ⟨m, hm, out, hc, v, hv, hid⟩
+    exact ⟨v, mem_flatMap_events.2 ⟨out, mem_oks.2 ⟨m, hm, hc⟩, hv⟩, hid⟩
+
+/-- …and for matchers that are neither remote nor authoritative "returned"
+    unfolds to the statement's wording: the store answered the vulnerability
+    for the package and the matcher accepted it for one of the package's
+    records it is interested in. -/
+theorem report_is_union_of_accepted (store : Store) (ms : List Matcher) (es : List Enricher)
+    (recs : List Record) (r : Report) (em : List (Nat × List Nat))
+    (hloc : ∀ m ∈ ms, m.kind = .plain ∨ m.kind = .versionFilter false)
+    (h : enrichedMatch false store ms es recs = some (r, em)) (pkg id : Nat) :
+    id ∈ getL pkg r.pkgVulns ↔
+      ∃ m ∈ ms, ∃ vulns, store false m.query (dbFilter m).1 (interested m recs) = some vulns ∧
+        ∃ v ∈ getL pkg vulns, v.id = id ∧
+          ∃ rec ∈ recs, m.filter rec = true ∧ rec.pkg = pkg ∧ m.vulnerable rec v = some true := by
+  rw [report_is_union false store ms es recs r em h]
+  obtain ⟨_, hall, _, _, _⟩ := enrichedMatch_some h
+  constructor
+  · rintro ⟨m, hm, out, hc, v, hv, hid⟩
+    obtain ⟨vulns, hs, rec, hr, hf, hp, hx, ha⟩ := (controller_exact false store m recs out (hloc m hm) hc pkg v).1 hv
+    exact ⟨m, hm, vulns, hs, v, hx, hid, rec, hr, hf, hp, ha⟩
+  · rintro ⟨m, hm, vulns, hs, v, hx, hid, rec, hr, hf, hp, ha⟩
+    cases hc : controllerMatch false store m recs with
+    | none => exact absurd hc (hall m hm)
+    | some out =>
+      exact ⟨m, hm, out, hc, v, (controller_exact false store m recs out (hloc m hm) hc pkg v).2
+        ⟨vulns, hs, rec, hr, hf, hp, hx, ha⟩, hid⟩
+
+/-- Every id listed in a returned report resolves in its table. -/
+theorem report_ids_resolve (c : Bool) (store : Store) (ms : List Matcher) (es : List Enricher)
+    (recs : List Record) (r : Report) (em : List (Nat × List Nat))
+    (h : enrichedMatch c store ms es recs = some (r, em)) (pkg id : Nat)
+    (hid : id ∈ getL pkg r.pkgVulns) : ∃ v, find id r.vulns = some v ∧ v.id = id := by
+  obtain ⟨_, _, _, hr, _⟩ := enrichedMatch_some h
+  subst hr
+  exact ids_resolve _ pkg id hid
+
+/-- Package keys exist in the report: for an index report that files every
+    package under its own id, and matchers that are neither remote nor
+    authoritative, every key of `PackageVulnerabilities` is a key of
+    `Packages` (which the vulnerability report shares with the index report). -/
+theorem keys_are_packages (store : Store) (ms : List Matcher) (es : List Enricher) (ir : IndexReport)
+    (r : Report) (em : List (Nat × List Nat))
+    (hwk : ∀ p ∈ ir.packages, p.key = p.id)
+    (hloc : ∀ m ∈ ms, m.kind = .plain ∨ m.kind = .versionFilter false)
+    (h : enrichedMatch false store ms es (indexRecords ir) = some (r, em)) (pkg : Nat)
+    (hkey : (find pkg r.pkgVulns).isSome = true) :
+    ∃ p ∈ ir.packages, p.key = pkg := by
+  obtain ⟨_, _, _, hr, _⟩ := enrichedMatch_some h
+  subst hr
+  unfold collectOuts at hkey
+  rw [collect_key, List.any_eq_true] at hkey
+  obtain ⟨⟨k, v⟩, hev, hk⟩ := hkey
+  simp only [decide_eq_true_eq] at hk
+  subst hk
+  obtain ⟨out, ho, hv⟩ := mem_flatMap_events.1 hev
+  obtain ⟨m, hm, hc⟩ := mem_oks.1 ho
+  obtain ⟨rec, hrec, hp⟩ := controller_keys false store m _ out (hloc m hm) hc k v hv
+  unfold indexRecords at hrec
+  simp only [List.mem_flatMap] at hrec
+  obtain ⟨p, hpm, e, _, hre⟩ := hrec
+  refine ⟨p, hpm, ?_⟩
+  rw [hwk p hpm, ← hp]
+  unfold envRecords at hre
+  by_cases hemp : e.repos.isEmpty = true
+  · simp only [hemp, if_true, List.mem_singleton] at hre
+    rw [hre]
+  · simp only [hemp, Bool.false_eq_true, if_false, List.mem_map] at hre
+    obtain ⟨_, _, rfl⟩ := hre
+    rfl
+
+/-- The hypothesis on the index report is needed: a package filed under a key
+    other than its id yields a `PackageVulnerabilities` key that is not a key
+    of `Packages`. -/
+theorem keys_need_wellkeyed_report_counterexample :
+    let ir : IndexReport := { packages := [⟨51, 1, 1⟩], envs := [(1, [⟨0, []⟩])], dists := [], repos := [] }
+    let m : Matcher := { kind := .plain, filter := fun _ => true, query := [],
+                         vulnerable := fun _ _ => some true, remote := fun _ => none }
+    let store : Store := fun _ _ _ rs => some (rs.map fun r => (r.pkg, [⟨9, 9⟩]))
+    ∃ r em, enrichedMatch false store [m] [] (indexRecords ir) = some (r, em) ∧
+      (find 1 r.pkgVulns).isSome = true ∧ ∀ p ∈ ir.packages, p.key ≠ 1 := by
+  refine ⟨_, _, rfl, ?_, ?_⟩ <;> decide
+
+/-- A failing matcher yields an error, never a partial report. -/
+theorem error_not_partial (c : Bool) (store : Store) (ms : List Matcher) (es : List Enricher)
+    (recs : List Record) (m : Matcher) (hm : m ∈ ms) (hfail : controllerMatch false store m recs = none) :
+    enrichedMatch c store ms es recs = none := by
+  cases h : enrichedMatch c store ms es recs with
+  | none => rfl
+  | some p =>
+    obtain ⟨r, em⟩ := p
+    exact absurd hfail ((enrichedMatch_some h).2.1 m hm)
+
+/-- A Context that is already cancelled yields an error (the behaviour after
+    the `fix:` commit; before it the result was an empty report and a nil
+    error in about half of the schedules). -/
 theorem cancelled_is_error (store : Store) (ms : List Matcher) (es : List Enricher) (recs : List Record) :
     enrichedMatch true store ms es recs = none := by
   simp [enrichedMatch]
+
+/-- A Context cancelled while a matcher's store query runs yields an error. -/
+theorem cancel_during_match_is_error (c : Bool) (store : Store) (ms : List Matcher) (es : List Enricher)
+    (recs : List Record) (m : Matcher) (hm : m ∈ ms) (hc : m.cancelsAtGet = true) (hr : reachesGet m recs = true) :
+    enrichedMatch c store ms es recs = none := by
+  cases h : enrichedMatch c store ms es recs with
+  | none => rfl
+  | some p =>
+    obtain ⟨r, em⟩ := p
+    exact absurd ⟨hc, hr⟩ ((enrichedMatch_some h).2.2.1 m hm)
+
+/-- Conversely: with a live Context and no failing matcher a report is
+    returned, and it is the collector's result over *all* matcher results —
+    nothing is lost. -/
+theorem no_error_complete (store : Store) (ms : List Matcher) (es : List Enricher) (recs : List Record)
+    (h1 : ∀ m ∈ ms, controllerMatch false store m recs ≠ none)
+    (h2 : ∀ m ∈ ms, ¬ (m.cancelsAtGet = true ∧ reachesGet m recs = true)) :
+    ∃ r em, enrichedMatch false store ms es recs = some (r, em) ∧
+      r = collectOuts ((runAll false store ms recs).filterMap id) ∧
+      ((runAll false store ms recs).filterMap id).length = ms.length := by
+  refine ⟨_, _, enrichedMatch_ok h1 h2, rfl, ?_⟩
+  unfold runAll
+  induction ms with
+  | nil => rfl
+  | cons m ms ih =>
+    have hm := h1 m List.mem_cons_self
+    cases hc : controllerMatch false store m recs with
+    | none => exact absurd hc hm
+    | some out =>
+      simp only [List.map_cons, hc, List.filterMap_cons, id, List.length_cons]
+      rw [ih (fun m' h' => h1 m' (List.mem_cons_of_mem _ h')) (fun m' h' => h2 m' (List.mem_cons_of_mem _ h'))]
+
+/-- The statement's "a failing matcher yields an error" is false for remote
+    matchers: `Controller.Match` logs the failure of `QueryRemoteMatcher` and
+    returns an empty result, so the report silently lacks that matcher
+    (finding `remote-error-swallowed`). -/
+theorem remote_error_swallowed_counterexample :
+    let m : Matcher := { kind := .remote, filter := fun _ => true, query := [],
+                         vulnerable := fun _ _ => some true, remote := fun _ => none }
+    let store : Store := fun _ _ _ _ => none
+    enrichedMatch false store [m] [] [⟨1, 1, 0, 0⟩] = some (Report.empty, []) := by
+  rfl
+
+/-! ## Match (the older entry point) -/
+
+/-- `Match` joins one error per failing matcher and reports the union over the
+    matchers that succeeded: a partial report always comes with an error. -/
+theorem match_partial_has_error (c : Bool) (store : Store) (ms : List Matcher) (recs : List Record) :
+    ((matchAll c store ms recs).2 = 0 ↔ ∀ m ∈ ms, controllerMatch c store m recs ≠ none) ∧
+    ∀ pkg id, id ∈ getL pkg (matchAll c store ms recs).1.pkgVulns ↔
+      ∃ m ∈ ms, ∃ out, controllerMatch c store m recs = some out ∧ ∃ v, (pkg, v) ∈ events out ∧ v.id = id := by
+  constructor
+  · simp only [matchAll, runAll, List.length_eq_zero_iff, List.filter_eq_nil_iff, List.mem_map]
+    constructor
+    · intro h m hm hn
+      exact h _ ⟨m, hm, rfl⟩ (by simp [hn])
+    · rintro h _ ⟨m, hm, rfl⟩ hn
+      exact h m hm (by simpa using hn)
+  · intro pkg id
+    simp only [matchAll]
+    unfold collectOuts
+    rw [mem_collect_pkg]
+    constructor
+    · rintro ⟨v, hv, hid⟩
+      obtain ⟨out, ho, hv⟩ := mem_flatMap_events.1 hv
+      obtain ⟨m, hm, hc⟩ := mem_oks.1 ho
+      exact ⟨m, hm, out, hc, v, hv, hid⟩
+    · rintro ⟨m, hm, out, hc, v, hv, hid⟩
+      exact ⟨v, mem_flatMap_events.2 ⟨out, mem_oks.2 ⟨m, hm, hc⟩, hv⟩, hid⟩
+
+/-- Ids listed by `Match` resolve as well. -/
+theorem match_ids_resolve (c : Bool) (store : Store) (ms : List Matcher) (recs : List Record) (pkg id : Nat)
+    (h : id ∈ getL pkg (matchAll c store ms recs).1.pkgVulns) :
+    ∃ v, find id (matchAll c store ms recs).1.vulns = some v ∧ v.id = id :=
+  ids_resolve _ pkg id h
+
+/-! ## Enrichment -/
+
+/-- The enrichment map holds, under each kind, exactly the messages of the
+    enrichers of that kind that did not fail and reported something, and it
+    does not depend on the order in which workers delivered them (up to order
+    within a kind). -/
+theorem enrich_perm (a b : List (Nat × List Nat)) (hp : a.Perm b) (k : Nat) :
+    (getL k (enrichCollect a)).Perm (getL k (enrichCollect b)) := by
+  rw [enrichCollect_get, enrichCollect_get]
+  exact (hp.filter _).flatMap_right _
+
+/-- A failing or silent enricher contributes nothing and never turns the
+    result into an error. -/
+theorem enricher_errors_skipped (es : List Enricher) (r : Report) (k msg : Nat) :
+    msg ∈ getL k (enrichCollect (enrichEntries es r)) ↔
+      ∃ e ∈ es, e.kind = k ∧ ∃ ms, e.enrich r = some ms ∧ msg ∈ ms := by
+  rw [enrichCollect_get]
+  simp only [List.mem_flatMap, List.mem_filter, enrichEntries, List.mem_filterMap, decide_eq_true_eq]
+  constructor
+  · rintro ⟨⟨k', ms⟩, ⟨⟨e, he, hen⟩, rfl⟩, hmsg⟩
+    cases hr : e.enrich r with
+    | none => simp [hr] at hen
+    | some ms' =>
+      simp only [hr] at hen
+      by_cases hemp : ms'.isEmpty = true
+      · simp [hemp] at hen
+      · simp only [hemp, Bool.false_eq_true, if_false, Option.some.injEq, Prod.mk.injEq] at hen
+        obtain ⟨rfl, rfl⟩ := hen
+        exact ⟨e, he, rfl, ms', hr, hmsg⟩
+  · rintro ⟨e, he, rfl, ms, hr, hmsg⟩
+    refine ⟨(e.kind, ms), ⟨⟨e, he, ?_⟩, rfl⟩, hmsg⟩
+    have : ms.isEmpty = false := by
+      cases ms with
+      | nil => cases hmsg
+      | cons _ _ => rfl
+    simp [hr, this]
 
 end ClairModel.Props.C05
